@@ -188,6 +188,7 @@ class Program:
         self._instance_attrs = {}
         self._dict_record_ok = {}
         self.dict_records = {}      # (root class, field) -> keys of a constructor-built dict used as a fixed set of slots
+        self.mirrors = {}           # (root class, owner.part) -> field of the owner that always holds an equal value
         self.field_aliases = {}     # (root class, owner.part) -> the field of the owner that holds the very same object
         self.nonnull = {}           # (root class, field) -> the attribute is never None once the object is constructed
         self.back_refs = {}         # (root class, owner.part) -> ("outer", prefix) when the part always denotes the owner
@@ -1312,6 +1313,53 @@ class Summariser:
         cache[key] = twin
         return twin
 
+    def _mirror_of(self, name):
+        """`owner.part` always holds the same value as a field of the owning object (a collaborator keeping its own
+        copy of a number the owner also stores): the constructor leaves equal values and every public method of the
+        owner changes both alike.  Returns the owner's field, whose value at method entry then stands for both."""
+        if "." not in name or name.startswith("%") or self.cls is None:
+            return None
+        rk = self._root_key()
+        key = (rk, name)
+        cache = self.prog.mirrors
+        if key in cache:
+            return cache[key]
+        root = self.prog.cls(rk) if isinstance(rk, str) and not rk.startswith("<") else None
+        if root is None:
+            return None
+        _, init = self.prog.find_method(root, "__init__")
+        if init is None or init in self.fnstack:
+            return None
+        cache[key] = None               # while this is being decided nothing is assumed
+        before = set(self.prog._summaries)
+        try:
+            fs = self.prog.summarise(root, "__init__").fields
+            v = fs.get(name)
+            if v is None or v[0] in ("new", "res", "const", "param") or (rk, name.rsplit(".", 1)[0]) not in self.prog.owned:
+                return None
+            twins = [f for f, t in fs.items() if t == v and "." not in f]
+            if len(twins) != 1:
+                return None
+            twin = twins[0]
+            a0, b0 = ("field0", name), ("field0", twin)
+            for k in self.prog.mro(root):
+                for mname, m in k.methods.items():
+                    if mname == "__init__" or (mname.startswith("_") and not mname.startswith("__")) or "." in mname:
+                        continue
+                    if self.prog.find_method(root, mname)[1] is not m:
+                        continue
+                    s = self.prog.summarise(root, mname)
+                    a, b = s.fields.get(name, a0), s.fields.get(twin, b0)
+                    if subst(a, {a0: b0}) != subst(b, {a0: b0}):
+                        return None
+            for k in set(self.prog._summaries) - before:
+                if k != (root.qual, root.qual, "__init__"):
+                    del self.prog._summaries[k]         # recomputed with the two fields identified
+            cache[key] = twin
+            return twin
+        except Unsupported:
+            return None
+
     def _never_none_field(self, name):
         """Class invariant `self.<name> is not None`: the constructor leaves a value that is never None and every
         method that assigns the attribute leaves one too (given that it found one).  Decided only when all stores
@@ -1374,6 +1422,9 @@ class Summariser:
             twin = self._alias_of(name)
             if twin is not None:
                 return self.field(twin)
+            twin = self._mirror_of(name)
+            if twin is not None:
+                return ("field0", twin)         # equal at method entry; this method has not assigned `name` yet
         if name not in self.fields:
             back = self._back_reference(name)
             if back is not None:
